@@ -78,6 +78,11 @@ CHECKS = {
    "Every accessor / helper of the ClientHello trait (TLS and DTLS), the constructors and getters are evaluated on all catalogue hellos, on constructed values with every random length, on complete half-word sweeps and bit patterns of the leading random word and on cipher lists covering the whole id space, and compared with the structure's own fields and the registry.",
    "Trusted: the registry file for listed ids. The 2^32 leading words are covered by two complete 2^16 half-word sweeps plus bit patterns, not completely.",
    "DESIGN.md section 3 C15"),
+ "C09": (True, "exploration",
+   "bounded-exhaustive enumeration of a small-scope catalogue of serializable values, records, parsed records and extension lists; round-trip laws checked against the real parser and an independent strict walker",
+   "Every catalogue value (boundary sizes of every variable-length field incl. 32767 ciphers, 255 compressions, 65535-byte extension block; all record versions; all max_fragment_length codes; a sweep of named groups), every record of 1..3 small messages, every serializable parsed record of the C03 catalogue and every unsupported variant is serialized; bytes must be accepted by the strict walker (all length fields), parse back completely to the value, re-serialize identically; unsupported values must give NotYetImplemented.",
+   "Trusted: strict walkers; two normalisations permitted as the statement says (absent extension block may read back empty; Dh/Ecdh read back as opaque).",
+   "DESIGN.md section 3 C09"),
 }
 PENDING_REASON = "check not built yet in this round (work in progress; see DESIGN.md appendix C for the build order)"
 
